@@ -28,6 +28,8 @@ type manualShard[T any] struct {
 	cases     int64
 	evals     int64
 	viol      []violation
+	nFresh    int
+	nKnown    int
 	first     *item[T]
 	last      *item[T]
 	compactAt int
@@ -97,7 +99,12 @@ func (m *Manual[T]) Record(seq int64, c T, out Outcome) {
 			s.compactAt = max(1<<20, 2*len(s.hashes))
 		}
 	}
-	if out.Fail != "" && len(s.viol) < 16 {
+	if out.Fail != "" && ((out.Known == "" && s.nFresh < 16) || (out.Known != "" && s.nKnown < 8)) {
+		if out.Known == "" {
+			s.nFresh++
+		} else {
+			s.nKnown++
+		}
 		b, _ := json.Marshal(c)
 		s.viol = append(s.viol, violation{Clause: m.st.Name, Seq: seq, Case: b, Fail: out.Fail, Known: out.Known})
 	}
